@@ -9,3 +9,4 @@ CONSTANTS
   AgreeTab = 4
   MaxLen = 3
   Dups = FALSE
+  Slim = TRUE
